@@ -268,9 +268,8 @@ theorem covered_op_keeps_cache (s : St) (hc : Consistent s) (op : Op) (_hop : op
 
 /-! ## operations update the union as an ordinary file system would
 
-  `op_refines_plain_fs` is proved in pieces (the statement "the union after = plain-fs step of the
-  union before" for all 13 modifying operations at ALL paths is NOT proved, see the note at
-  `op_refines_plain_fs_partial`). -/
+  `op_refines_plain_fs` is proved in pieces; see `op_refines_plain_fs_partial` for what exactly is
+  and is not covered. -/
 
 /-- Non-modifying operations (lookup, readdir, read, readlink, getxattr, open read-only, walk)
     leave the union unchanged at every path, as they leave an ordinary file system unchanged —
@@ -282,19 +281,25 @@ theorem readonly_op_refines_plain_fs (d : Disk) (hr : d.RootsOK) (ht : d.TreesOK
   have h' := (runOp_ro_cd (run (importFs d) ops).disk op hop).st ⟨hc, rfl⟩
   rw [h'.2]
 
-/-- `op_refines_plain_fs`, PARTIAL (kept name; superseded by `readonly_op_refines_plain_fs`, which
-    drops the restriction on the history): non-modifying operations leave the union unchanged.
-
-    What is proved of `op_refines_plain_fs` altogether: (1) non-modifying operations change
-    nothing (`readonly_op_refines_plain_fs`); (2) after a successful unlink / rmdir the name and
-    everything below it is gone from the union (`unlink_refines_plain_fs`,
-    `rmdir_refines_plain_fs`); (3) every operation keeps live view = union (`view_is_merge`).
-    NOT proved in Lean: the effect of create, mkdir, mknod, symlink, link, chmod, truncate,
-    write, setxattr, removexattr on the union at the target path, and for every modifying
-    operation that the union at all OTHER paths is unchanged.  (The latter is false as stated
-    for `user.*` xattrs of copied-up entries — known finding `C10:copy-up:xattr-lost` — and the
-    view type carries no inode identity, so hard-link aliasing of attribute changes cannot be
-    expressed.)  Those parts rest on the harness's ordinary-directory reference run. -/
+/-- `op_refines_plain_fs`, PARTIAL.  What is proved, each from ANY state with a valid cache (hence
+    after any history, `cache_valid_after_history`):
+    (1) non-modifying operations change the union nowhere (`readonly_op_refines_plain_fs`; this
+        theorem is its older form for read-only histories);
+    (2) for each of the 13 modifying operations, what the union shows AT THE TARGET PATH after a
+        successful operation: `unlink_refines_plain_fs`, `rmdir_refines_plain_fs` (gone, with
+        everything below), `create_` / `mknod_` / `symlink_` / `mkdir_refines_plain_fs` (the new entry;
+        a new directory is empty), `link_refines_plain_fs` (the new name shows what the old name
+        shows), `chmod_` / `truncate_` / `write_` / `open_` / `setxattr_` / `removexattr_refines_plain_fs`
+        (the old entry changed as chmod(2) / ftruncate(2) / pwrite(2) / open(O_TRUNC) / setxattr(2)
+        change it, with type, mode, content and target carried over a copy-up);
+    (3) every operation, successful or failed, keeps live view = union (`view_is_merge`).
+    NOT proved in Lean (the reason for `_partial`): that a modifying operation leaves the union
+    at all OTHER paths unchanged, that a failed modifying operation leaves the union unchanged,
+    and which errno an operation answers.  The first two are false as stated for the `user.*`
+    xattrs of entries that get copied up (known finding `C10:copy-up:xattr-lost`), the view type
+    carries no inode identity (hard-link aliasing of chmod/write cannot be expressed), and for
+    file copy-up the model would need an "inode ids on disk are below `nextId`" invariant.  Those
+    parts rest on the harness's ordinary-directory reference run (`C10:not-plain-fs:*`). -/
 theorem op_refines_plain_fs_partial (d : Disk) (hr : d.RootsOK) (ht : d.TreesOK) (ops : List Op)
     (hops : ∀ op ∈ ops, op.isModifying = false) (op : Op) (hop : op.isModifying = false) :
     merge (runOp op (run (importFs d) ops)).st.disk = merge d := by
